@@ -14,7 +14,8 @@ RULE = ("scenario = (phase, server bytes, ending) with phase in {handshake, fram
         "grammar-based valid traffic with one field corrupted (status line pieces, header separators, non-UTF-8 header "
         "bytes, Content-Length absent/garbage/negative/huge, Location absent/relative/foreign scheme/garbage, odd "
         "Set-Cookie values incl. names http.cookies refuses, Location hosts the IDNA codec refuses; frame header bits, declared lengths up to 2^64-1, truncated payloads); all byte strings of "
-        "length <=1 (quick) / <=2 (thorough) in each phase; ending = end of stream or silence (socket timeout set).  "
+        "length <=1 (quick) / <=2 (thorough) in each phase; ending = end of stream or silence (socket timeout set); transport plain, TLS (the bytes as application data) or TLS with "
+        "the bytes put on the wire in the clear after the TLS handshake (the transport's own error must surface as such).  "
         "Client: WebSocket(fire_cont_frame, skip_utf8_validation in all four combinations) connect(), then recv() / recv_data_frame(True) until it raises or 32 calls.  Oracle: every exception "
         "leaving a call is a WebSocketException subclass or an OSError from the transport; returned values agree with "
         "the reference decoder on the bytes consumed; every call ends within a step budget proportional to the bytes it "
@@ -32,7 +33,7 @@ HS_CORRUPTIONS = ("none", "no_spaces_status", "nonnumeric_status", "empty_status
                   "redirect_no_location", "redirect_relative", "redirect_foreign_scheme", "redirect_garbage", "redirect_empty",
                   "redirect_unresolvable", "setcookie_odd", "very_long_line", "many_headers", "status_100", "http09", "tab_separators",
                   "trailing_garbage", "truncated_head", "extra_space_status", "accept_nonascii", "duplicate_status", "unicode_digit_status",
-                  "fullwidth_digit_status", "status_with_sign", "status_with_underscore", "setcookie_illegal_key", "redirect_idna")
+                  "fullwidth_digit_status", "status_with_sign", "status_with_underscore", "setcookie_illegal_key", "redirect_idna", "redirect_nul_host")
 FR_CORRUPTIONS = ("none", "rsv", "opcode", "len_2_63", "len_2_64_minus_1", "len_16bit_huge", "truncated_payload", "truncated_header",
                   "truncated_extlen", "masked_garbage", "close_1byte", "close_badcode", "close_badutf8", "ping_long", "cont_idle",
                   "text_badutf8", "text_truncated_utf8", "random_tail", "zero_bytes", "nested_text", "frag_text_badutf8_first", "frag_text_badutf8_middle",
@@ -103,6 +104,7 @@ def hs_bytes(rng, corr):
         status_line = "HTTP/1.1 " + rng.choice(("301 Moved", "302 Found", "303 See", "307 T", "308 P"))
         loc = {"redirect_no_location": None, "redirect_relative": "/other/path", "redirect_foreign_scheme": "http://elsewhere.test/x",
                "redirect_garbage": "::::not a url", "redirect_empty": "", "redirect_unresolvable": "ws://nowhere.invalid/",
+               "redirect_nul_host": rng.choice(("ws://a\x00b/", "ws://sim.test\x00.evil.test/x", "wss://\x00/")),
                "redirect_idna": rng.choice(("ws://a..b/", "ws://" + "x" * 64 + ".test/", "ws://.test/x", "wss://sim.test..:443/"))}[corr]
         hdrs = [] if loc is None else [f"Location: {loc}"]
     elif corr == "setcookie_odd":
@@ -216,12 +218,12 @@ def expand(item, seed):
             for corr in HS_CORRUPTIONS:
                 for end in ("eof", "silence"):
                     yield {"phase": "handshake", "gen": "grammar", "corr": corr, "hex": hs_bytes(rng, corr).hex(), "end": end,
-                           "api": "recv", "seed": sd, "trace": sd == 0}
+                           "api": "recv", "seed": sd, "trace": sd == 0, "tls": [None, None, None, None, "records", "plaintext_on_wire"][sd]}
             for corr in FR_CORRUPTIONS:
                 for end in ("eof", "silence"):
                     for api in ("recv", "recv_data_frame_ctrl"):
                         yield {"phase": "frames", "gen": "grammar", "corr": corr, "hex": fr_bytes(rng, corr).hex(), "end": end,
-                               "api": api, "seed": sd, "trace": sd == 0, "logtrace": sd in (1, 2),
+                               "api": api, "seed": sd, "trace": sd == 0, "logtrace": sd in (1, 2), "tls": [None, None, None, None, "records", "plaintext_on_wire"][sd],
                                "opts": [[], ["fire_cont"], ["skip_utf8"], ["fire_cont", "skip_utf8"], [], []][sd]}
     else:
         for i in range(item["start"], item["start"] + item["count"]):
@@ -255,7 +257,9 @@ def gen(rng):
     return {"phase": phase, "gen": g, "corr": corr, "hex": data.hex(), "end": rng.choice(("eof", "silence")),
             "api": rng.choice(("recv", "recv_data_frame_ctrl")), "seed": rng.randrange(1 << 30), "trace": rng.random() < 0.3,
             "logtrace": rng.random() < 0.25,
-            "opts": rng.choice(([], [], [], ["fire_cont"], ["skip_utf8"], ["fire_cont", "skip_utf8"])) if phase == "frames" else []}
+            "opts": rng.choice(([], [], [], ["fire_cont"], ["skip_utf8"], ["fire_cont", "skip_utf8"])) if phase == "frames" else [],
+            # TLS transport: the same bytes as TLS application data, or put on the wire in the clear after the TLS handshake
+            "tls": rng.choice((None, None, None, None, "records", "plaintext_on_wire"))}
 
 
 def run(sc, choices=None):
@@ -271,6 +275,9 @@ def run(sc, choices=None):
         api = sc.get("api", "recv")
         if api not in ("recv", "recv_data_frame_ctrl"):
             raise InvalidScenario("api")
+        tlsmode = sc.get("tls")
+        if tlsmode not in (None, "records", "plaintext_on_wire"):
+            raise InvalidScenario("tls")
         opts = list(sc.get("opts") or [])
         if any(o not in ("fire_cont", "skip_utf8") for o in opts) or len(set(opts)) != len(opts):
             raise InvalidScenario("opts")
@@ -286,11 +293,13 @@ def run(sc, choices=None):
         peer_cfg = {"after": data.hex(), "on_close": {"mode": "never"}, "on_ping": {"mode": "never"}, "eof_on_client_eof": False}
         if end == "eof":
             peer_cfg["script"] = [{"t": 0, "end": "eof"}]
-    trace = bool(sc.get("trace"))
+    if tlsmode == "plaintext_on_wire":
+        peer_cfg["wire_raw"] = "response" if phase == "handshake" else "after"
+    trace = bool(sc.get("trace")) and not tlsmode
     policy = {"kind": "prob", "p_line": 0.0, "p_call": 0.0} if trace else None
     # 'logtrace': the library's own trace logging (enableTrace) is on - its extra work on received frames must not fail
     w, peers = std_world(seed=int(sc.get("seed", 1)), peer_cfg=peer_cfg, policy=policy, step_cap=3_000_000, time_cap_s=400,
-                         trace=bool(sc.get("logtrace")))
+                         trace=bool(sc.get("logtrace")), tls=bool(tlsmode), port=443 if tlsmode else 80)
     # a second, well-behaved host for redirects that point somewhere resolvable
     calls = []  # (name, outcome, exc name, steps, bytes consumed)
     obs = []
@@ -298,7 +307,13 @@ def run(sc, choices=None):
         ws = w.ws
         # the receive options a caller may legitimately construct the object with: per-fragment delivery and "do not
         # validate UTF-8" change what is returned, never which kind of exception may leave a call
-        c = ws.WebSocket(fire_cont_frame="fire_cont" in opts, skip_utf8_validation="skip_utf8" in opts)
+        kw = {}
+        if tlsmode:
+            import ssl as _ssl
+            from .. import tls as simtls
+            simtls.install()
+            kw["sslopt"] = {"cert_reqs": _ssl.CERT_NONE, "check_hostname": False}
+        c = ws.WebSocket(fire_cont_frame="fire_cont" in opts, skip_utf8_validation="skip_utf8" in opts, **kw)
         c.settimeout(T / S)
         if trace:
             w.k.start_tracing()
@@ -309,7 +324,7 @@ def run(sc, choices=None):
             s0, b0 = w.k.steps, consumed()
             ok = False
             try:
-                c.connect(f"ws://{HOST}/x")
+                c.connect(f"{'wss' if tlsmode else 'ws'}://{HOST}/x")
                 ok = True
                 calls.append(("connect", "ok", None, w.k.steps - s0, consumed() - b0, None))
             except SimAbort:
@@ -340,7 +355,9 @@ def run(sc, choices=None):
                 w.k.stop_tracing()
         maxbuf = w.net.max_bufsize
         WSE = ws.WebSocketException
-    res.absorb(w)
+    res.absorb(w, exclude_kinds=("send", "recv", "deliver", "recv_call") if tlsmode else ())
+    if tlsmode:
+        res.probes["tls_" + tlsmode] = 1
     ctx = f"{phase}/{sc.get('corr', '?')}"
     outcome_cls = []
     for name, oc, en, steps, nbytes, e in calls:
@@ -358,7 +375,7 @@ def run(sc, choices=None):
     if maxbuf > 65536 and not res.violations:
         res.violate("recv_size_driven_by_peer", ctx, f"largest bufsize passed to socket.recv: {maxbuf}")
     # returned values agree with the reference decoder (frame phase, connect succeeded)
-    if phase == "frames" and not opts and not res.violations and calls and calls[0][1] == "ok":
+    if phase == "frames" and not opts and tlsmode != "plaintext_on_wire" and not res.violations and calls and calls[0][1] == "ok":
         frames, pos = R.decode_all(data)
         exp, writes, complete = predict(frames, api, False, False, "none")
         rest = data[pos:]
@@ -370,7 +387,7 @@ def run(sc, choices=None):
         why = obs_matches(obs, exp, complete)
         if why and not _only_after_close(frames, obs, exp):
             res.violate("returned_values_disagree_with_bytes", ctx, why)
-    res.sig = repr((phase, sc.get("gen"), sc.get("corr"), end, tuple(outcome_cls[:3]), api, tuple(opts),
+    res.sig = repr((phase, sc.get("gen"), sc.get("corr"), end, tuple(outcome_cls[:3]), api, tuple(opts), tlsmode,
                     (min(len(data), 64), data[:2].hex()) if sc.get("gen") in ("random", "short", "mutated") else 0))
     res.nontrivial = sc.get("corr") != "none"
     res.probes["phase_" + phase] = 1
@@ -389,4 +406,4 @@ def _only_after_close(frames, obs, exp):
 
 def sample_view(sc, r):
     return {"phase": sc["phase"], "generator": sc.get("gen"), "corrupted_field": sc.get("corr"), "bytes_hex": sc["hex"][:160],
-            "ending": sc.get("end"), "api": sc.get("api"), "receive_options": sc.get("opts") or [], "line_tracing": sc.get("trace"), "library_trace_logging": sc.get("logtrace")}
+            "ending": sc.get("end"), "api": sc.get("api"), "receive_options": sc.get("opts") or [], "tls": sc.get("tls"), "line_tracing": sc.get("trace"), "library_trace_logging": sc.get("logtrace")}
